@@ -40,7 +40,8 @@ class SRun:
         self.src_started = self.src_closed = 0
         self.raised = None
         run = self
-        events = [gqlmini.to_py(e) for e in case["events"]]
+        # an event may be exactly None: every root field then resolves to null (the wire event is the all-null object)
+        events = [None if k in opts.get("none_events", ()) else gqlmini.to_py(e) for k, e in enumerate(case["events"])]
 
         class Source:
             def __init__(self):
@@ -83,7 +84,8 @@ class SRun:
         doc = parse(gqlmini.render_doc(case, "subscription"))
         asyncio.events._set_running_loop(self.loop)
         try:
-            r = subscribe(gqlmini.schema(), doc, None, variable_values=gqlmini.render_vars(case),
+            # a root value given to subscribe() is not the root of the per-event executions: each event is
+            r = subscribe(gqlmini.schema(), doc, gqlmini.to_py(opts["root_value"]) if opts.get("root_value") else None, variable_values=gqlmini.render_vars(case),
                           field_resolver=gqlmini.make_resolver(calls, self.wrap), type_resolver=gqlmini.make_type_resolver(self.wrap),
                           subscribe_field_resolver=sub_resolver)
         finally:
@@ -214,9 +216,18 @@ def _chunk(jobs):
         opts = {"creation": rng.choice(["ok"] * 8 + ["raise", "noniter"]), "source_fails": rng.random() < 0.3,
                 "gate_source": rng.random() < 0.6, "gate_subscribe": rng.random() < 0.3, "p_gate": rng.choice([0.0, 0.3, 0.7]),
                 "aclose_raises": rng.random() < 0.25}
+        if rng.random() < 0.5:
+            names = gqlmini.doc_field_names(case["doc"])
+            opts["root_value"] = gqlmini.prune(gqlmini.gen_conforming_obj(rng, "Subscription", 2), names)
+        if case["events"] and rng.random() < 0.4:
+            none_events = sorted(rng.sample(range(len(case["events"])), rng.randint(1, len(case["events"]))))
+            opts["none_events"] = none_events
+            for k in none_events:
+                ev0 = case["events"][k]
+                case["events"][k] = {"t": "o", "type": ev0["type"], "f": {f: {"t": "null"} for f in ev0["f"]}}
         results, exhaustive = explore(case, sd, opts, 40 if tier == "quick" else 120, rng)
         for sched, r in results:
-            meta = {"seed": sd, "query": text, "variables": gqlmini.render_vars(case), "options": opts, "n_events": len(case["events"]),
+            meta = {"seed": sd, "query": text, "variables": gqlmini.render_vars(case), "options": {k: v for k, v in opts.items() if k != "root_value"}, "root_value_given": "root_value" in opts, "n_events": len(case["events"]),
                     "schedule": [list(a) for a in sched], "exhaustive": exhaustive}
             if r.hang or r.raised is not None:
                 out.append({"error": "hang" if r.hang else f"subscribe raised {type(r.raised).__name__}: {r.raised}", "_meta": meta})
